@@ -135,7 +135,11 @@ def check_vector(v):
         if o != ("ok", want_iv):
             rep("reference interval differs from position + reference-consuming CIGAR lengths / flag 0x10", "interval-" + kind, want_iv, o)
     # write back: whole, filtered, reordered
-    for sel_name, sel in (("whole", slice(None)), ("filtered", slice(0, None, 2)), ("reordered", slice(None, None, -1))):
+    m_ = len(recs)
+    more = [("inner-permutation", [0, 2, 1] + list(range(3, m_))), ("inner-repeat", [0, 1, 1] + list(range(3, m_)))] if m_ >= 4 else []
+    def take(rows, sel):
+        return [rows[i] for i in sel] if isinstance(sel, list) else rows[sel]
+    for sel_name, sel in [("whole", slice(None)), ("filtered", slice(0, None, 2)), ("reordered", slice(None, None, -1))] + more:
         out_path = os.path.join(d, "o_%s.bam" % sel_name)
 
         def roundtrip():
@@ -153,17 +157,17 @@ def check_vector(v):
             return _project(sub)
         o2 = outcome(touched_then_written)
         n += 1
-        if o2[0] != "ok" or not _same(exp[sel], o2[1]):
-            rep("a selection of BAM records no longer decodes to its records after it was written", "fields-after-write-" + sel_name, len(exp[sel]), str(o2)[:300])
+        if o2[0] != "ok" or not _same(take(exp, sel), o2[1]):
+            rep("a selection of BAM records no longer decodes to its records after it was written", "fields-after-write-" + sel_name, len(take(exp, sel)), str(o2)[:300])
         o = outcome(roundtrip)
         n += 1
-        if o[0] != "ok" or not _same(exp[sel], o[1]):
-            rep("BAM written back (%s) does not decode to the same records" % sel_name, "write-" + sel_name, len(exp[sel]), str(o)[:300])
+        if o[0] != "ok" or not _same(take(exp, sel), o[1]):
+            rep("BAM written back (%s) does not decode to the same records" % sel_name, "write-" + sel_name, len(take(exp, sel)), str(o)[:300])
         else:
             # C04 for BAM: unmodified records are written back byte for byte, in the selected order
             offs = [sum(v["sizes"][:i]) for i in range(len(recs))]
             chunks = [body[offs[i]:offs[i] + v["sizes"][i]] for i in range(len(recs))]
-            want_bytes = b"".join(chunks[sel])
+            want_bytes = b"".join([chunks[i] for i in sel] if isinstance(sel, list) else chunks[sel])
             raw = outcome(lambda: gzip.decompress(open(out_path, "rb").read()))
             n += 1
             if raw[0] != "ok" or raw[1][len(_header()):] != want_bytes:
@@ -237,9 +241,13 @@ def check_vector(v):
 
 def run(ctx):
     quick = ctx.tier == "quick"
-    res = ctx.tlc("MC_C16", spec="Spec", constants={"MaxRecs": 2 if quick else 3}, invariants=["RoundTrip", "SizesAdd", "Emit"], coverage=True)
+    res = ctx.tlc("MC_C16", spec="Spec", constants={"MaxRecs": 2 if quick else 3, "Pick": list(range(1, 9))}, invariants=["RoundTrip", "SizesAdd", "Emit"], coverage=True)
     ctx.require_actions(res, "MC_C16", ["Add"])
     vectors = res.vectors
+    # files of four (five) records from two templates of equal and of different size: selections that permute or repeat inner records
+    res4 = ctx.tlc("MC_C16", tag="MC_C16_four", spec="Spec", constants={"MaxRecs": 4 if quick else 5, "Pick": [1, 6] if quick else [1, 6, 2]},
+                   invariants=["RoundTrip", "SizesAdd", "Emit"])
+    vectors += [v for v in res4.vectors if len(v["recs"]) >= 4]
     for i, v in enumerate(vectors):
         v["_id"] = i
         v["_dir"] = ctx.work
